@@ -178,9 +178,5 @@ theorem debug_suite (cls : Option (List Expr × List Expr)) (fb m : Bool) (ys : 
     cases m <;> simp [cBody, cStmt, zeroStmt, cExpr, debugSplice, isZero]
   · simp [he]
 
-/-- remove_debug: output = input modulo replacing `if __debug__:` blocks by what `-O` runs -/
-theorem removeDebug_canon (m : Module) :
-    canonModule DbgOnly (travModule removeDebug m) = canonModule DbgOnly m :=
-  canon_dropG DbgOnly canRemoveDebug debug_suite rfl rfl m
 
 end PMV.Transforms
